@@ -15,7 +15,9 @@ RULE = ('one case = one Configurator (2-10 add_view calls: context in class tree
         'view name, global or route-bound with and without use_global_views, 0-3 predicates drawn from every built-in '
         'incl. accept, custom, third-party and not_, occasional same-phash re-registrations and secured views) x 10-20 '
         'requests through Router.__call__ (30 % of the cases on a tree whose root is named None, 8 % of the bodies raise HTTPNotFound '
-        'themselves, the security policy\'s identity() independent of authenticated_userid(), 40 % of the cases with a second '
+        'themselves, the security policy\'s identity() independent of authenticated_userid(), value twins = two views of one slot whose '
+        'predicate values differ in one NEAR value (containment classes / interfaces of another module with the same short name, '
+        'k vs k=, X-Foo vs X-Foo:, GET vs HEAD ...), 40 % of the cases with a second '
         'application alive in the process that is asked first in the last phase), each sent at a chosen moment of the commit history (warm lookup cache) and compared with the model on the registrations committed so far; non-trivial = the case has >= 3 registrations, at least one request on which '
         'a view body ran after the lookup had at least two name-matching registrations in range, and at least one request '
         'that ended in Not Found or ran a different body; distinct by full case')
@@ -38,13 +40,20 @@ ASSUMPTIONS = [
 TRUSTED = [
     'translator harness/c03/translate.py: its PRIMITIVE TABLE (ATTR / METHODS / CALLS / PROJ / idioms / glue: which Python leaf '
     'means which primitive of Model/C03.v or of the prelude of Gen/Facts_C03_gen.v) and its mechanical statement-to-term rules',
-    'hand-written model coq/Model/C03.v of PredicateList.make, the built-in predicate classes, MultiView, register_view, '
-    '_find_views and _call_view (all shape-pinned)',
+    'hand-written model coq/Model/C03.v of the functions that are still shape-pinned: the predicate constructors (__init__) other '
+    'than RequestMethod / RequestParam / Header / MatchParam / PhysicalPath (those five are regenerated: gen_factory_is_model), '
+    'MultiView.add, register_view, attr_wrapped_view, sort_accept_offers (the lookup, make, the predicate __call__ and the '
+    'text()/phash() bodies are regenerated and proved equal to the model)',
+    'the prefix / separator literals the reference model reads from text() (c03facts) are accepted only while they keep the texts '
+    'of different predicates apart (non-empty not_ mark, no prefix a prefix of another); otherwise the reference literals stay',
     'attribute propagation through the view derivers (only the outermost attr_wrapped_view / predicated_view wrappers are modelled)',
 ]
 TECHNIQUE = ('Coq proof about a Gallina program whose control flow is translated from the Python source on every run '
              '(harness/c03/translate.py -> Gen/Facts_C03_gen.v: _find_views, _call_view, MultiView.get_views/match/__call__, '
-             'predicated_view and its wrappers, PredicateList.make, the __call__ of the 12 stock predicate classes), proved equal to '
+             'predicated_view and its wrappers, PredicateList.make, the __call__ of the 12 stock predicate classes, the text()/phash() of '
+             'the 10 stock classes + CustomPredicate.phash + Notted.phash/_notted_text -- f-strings, % and str.format templates, join, '
+             'comprehensions; the constructors of the RequestMethod, RequestParam, Header, MatchParam and PhysicalPath predicates -- split unpacking as a may-raise match, '
+             'strip, startswith, slices), proved equal to '
              'the hand-written reference model (Proofs/C03_gen.v), with the property theorems (induction over registration lists and '
              'resolution orders; Z arithmetic) restated about the regenerated lookup + extracted-model differential correspondence '
              'through Router.__call__ (the runner answers with the regenerated program)')
@@ -54,9 +63,12 @@ LEVEL_TEXT = ('Machine-checked theorems over the executable model, for registrat
               '(earlier request interface, earlier context interface, same slot with more predicates) -- proved for '
               'configurations without accept= and refuted by a witness with accept= (open finding); Not Found exactly when '
               'nothing qualifies; a MultiView is sorted by order; more predicates give a smaller order within the stated '
-              'arithmetic bound (tightness refuted beyond it); one characterisation lemma per built-in predicate.')
+              'arithmetic bound (tightness refuted beyond it); one characterisation lemma per built-in predicate; the regenerated '
+              'phash texts equal the model\'s, two containment values share a key iff their str() agree, not_(P) never shares P\'s key; '
+              'the accept-aware lookup theorem holds for registrations as add_view makes them without a premise on predicate lists '
+              '(accept_wf proved of make\'s output).')
 LEVEL_NOTE = ('Trusted: Coq kernel; the translator\'s primitive table (control flow of the lookup, make and the predicate bodies is '
-              'regenerated, not pinned); the hand-written model of the functions that are still pinned (MultiView.add, register_view, '
+              'regenerated, not pinned; so are the text()/phash() bodies and five constructors); the hand-written model of the functions that are still pinned (MultiView.add, register_view, '
               'attr_wrapped_view, sort_accept_offers, predicate constructors; validated by correspondence); Python harness; '
               'zope.interface, WebOb and re as oracles. The specificity theorem assumes duplicate-free resolution orders, '
               'no two registrations with the same (slot, phash), orders computed by make within the bound, and no accept=.')
@@ -66,15 +78,16 @@ ACCEPT_HEADERS = [None, 'text/html', 'application/json', 'text/*;q=0.5, applicat
                   'text/html;q=0', 'application/json;q=0.3, text/html;q=0.7', 'text/plain, text/html;level=1;q=0.9',
                   'application/x-foo, text/html;q=0.1', 'image/png', 'garbage;;']
 CTXS = [None, 'A', 'B', 'C', 'U', 'I', 'Root']
-CONT = ['A', 'B', 'C', 'U', 'Root', 'I']
-PATHS = [[], ['a'], ['a', 'b'], ['a', 'b', 'c'], ['u'], ['u', 'c'], ['u', 'i'], ['x']]
+CONT = ['A', 'B', 'C', 'U', 'Root', 'I', 'A2', 'I2']     # A2 / I2: another module's class / interface NAMED 'A' / 'I'
+PATHS = [[], ['a'], ['a', 'b'], ['a', 'b', 'c'], ['u'], ['u', 'c'], ['u', 'i'], ['x'], ['u', 'd']]
 VNAMES = ['', 'v', 'w']
 ROUTES = ['r1', 'r2']
 METHODS = ['GET', 'POST', 'HEAD', 'PUT', 'DELETE']
-METHOD_VALS = ['GET', 'POST', 'HEAD', 'PUT', ['GET', 'POST'], ['POST', 'HEAD'], ['PUT', 'GET', 'HEAD'], ['POST']]
+METHOD_VALS = ['GET', 'POST', 'HEAD', 'PUT', ['GET', 'POST'], ['POST', 'HEAD'], ['PUT', 'GET', 'HEAD'], ['POST'], ['GET', 'GET']]
 PARAM_VALS = ['k', 'k=v', '=k', '=k=v', ' k = v ', 'j=w', ['k', 'j=w'], ['j', 'k=v'], 'k=', '=', 'k=v=w', 'k = v',
-              'aheader b', ['a'], 'j']
-HEADER_VALS = ['X-Foo', 'X-Foo:ba.', 'X-Foo:', ['X-Foo', 'X-Bar:\\d+'], 'X-Bar:^1', 'x-foo', 'X-Foo:bar$', 'b', 'X-Bar']
+              'aheader b', ['a'], 'j', '\xa0k\xa0=\xa0v\xa0', '=k=']
+HEADER_VALS = ['X-Foo', 'X-Foo:ba.', 'X-Foo:', ['X-Foo', 'X-Bar:\\d+'], 'X-Bar:^1', 'x-foo', 'X-Foo:bar$', 'b', 'X-Bar', 'X-Foo:a:b',
+               ['X-Foo:', 'X-Foo']]
 PATHINFO_VALS = ['/a', '.*b', '/u/', '/r1', '.*v$', '/$', '/a/b/c', '(?i)/A', '/x|/u', '.*/w']
 MATCH_VALS = ['mp=1', ' mp = 1 ', ['mp=1', 'mp=2'], 'mp=2', 'mp=', 'zz=1', 'mp=1=1']
 PHYS_VALS = ['/a/b', ['', 'a'], '/', 'a/b/', '/u/c', ['', 'u', 'i'], '//a//', [''], [], ['a'], '/a/b/c', '/x', '']
@@ -154,6 +167,12 @@ CTX_PATHS = {'A': [['a'], ['a', 'b'], ['a', 'b', 'c'], ['u', 'i'], ['u', 'c']], 
              'C': [['a', 'b', 'c'], ['u', 'c']], 'U': [['u']], 'I': [['u', 'i']], 'Root': [[]], None: PATHS}
 
 
+# paths whose lineage contains an instance / provider of the containment value
+CONT_PATHS = {'A': [['a'], ['a', 'b'], ['a', 'b', 'c'], ['u', 'i']], 'B': [['a', 'b'], ['a', 'b', 'c'], ['u', 'c']],
+              'C': [['a', 'b', 'c'], ['u', 'c']], 'U': [['u'], ['u', 'c'], ['u', 'i'], ['u', 'd']], 'Root': PATHS,
+              'I': [['u', 'i']], 'A2': [['u', 'd']], 'I2': [['u', 'd']]}
+
+
 def gen_request(rng, case):
     views = case['views']
     tidx = rng.randrange(len(views))                # aim most requests at a registered view
@@ -175,9 +194,13 @@ def gen_request(rng, case):
     method = rng.choice(METHODS + ['GET', 'GET', 'POST'])
     if post and method in ('GET', 'HEAD', 'DELETE'):
         method = 'POST'
+    paths = CTX_PATHS[target['ctx']] if aimed else PATHS
+    cont = target['preds'].get('containment')
+    if aimed and cont is not None and rng.random() < 0.6:
+        paths = [p for p in paths if p in CONT_PATHS[cont]] or paths
     return tidx, {'method': method, 'qs': qs, 'post': post, 'headers': headers, 'xhr': rng.random() < 0.35,
             'accept': rng.choice(ACCEPT_HEADERS), 'route': route, 'mp': rng.choice(['1', '1', '2', ' 1']),
-            'path': rng.choice(CTX_PATHS[target['ctx']] if aimed else PATHS), 'vname': vname, 'user': rng.random() < 0.4,
+            'path': rng.choice(paths), 'vname': vname, 'user': rng.random() < 0.4,
             'ident': rng.random() < 0.4,
             'truth': sorted(rng.sample(range(10), rng.choice([0, 2, 4, 5, 7, 10])))}
 
@@ -210,6 +233,41 @@ def _not_sibling(rng, o, tag, third):
     return dict(o, preds=preds, nots=nots, tag=tag, perm=False)
 
 
+# values of one predicate that print alike, normalise alike or differ in one boundary character: two registrations of one
+# slot that differ in exactly such a pair are two registrations (unless the documented normal form is the same)
+NEAR = {
+    'containment': {'A': 'A2', 'A2': 'A', 'I': 'I2', 'I2': 'I', 'B': 'A', 'C': 'B', 'U': 'A2', 'Root': 'U'},
+    'request_param': {'k': 'k=', 'k=': 'k', 'k=v': 'k=v=w', 'k=v=w': 'k=v', 'j': 'j=w', 'j=w': 'j', '=k': '=k=v',
+                      '=k=v': '=k', ' k = v ': 'k = v', 'k = v': 'k=v', '=': 'k='},
+    'header': {'X-Foo': 'X-Foo:', 'X-Foo:': 'X-Foo', 'X-Foo:bar$': 'X-Foo:ba.', 'X-Foo:ba.': 'X-Foo:bar$',
+               'X-Bar': 'X-Bar:^1', 'X-Bar:^1': 'X-Bar', 'x-foo': 'X-Foo', 'b': 'X-Bar'},
+    'request_method': {'GET': 'HEAD', 'HEAD': 'GET', 'POST': ['POST', 'HEAD'], 'PUT': ['PUT', 'GET', 'HEAD']},
+    'physical_path': {'/': [''], '': '/', '/a/b': '/a/b/c', '/a/b/c': '/a/b', 'a/b/': '//a//', '//a//': ['', 'a'],
+                      '/x': '/', '/u/c': '/a/b/c'},
+    'match_param': {'mp=1': 'mp=2', 'mp=2': 'mp=1', 'mp=': 'mp=1', ' mp = 1 ': 'mp=2', 'zz=1': 'mp=1'},
+    'path_info': {'/a': '/a/b/c', '/a/b/c': '/a', '/$': '/u/', '/u/': '/$', '.*b': '.*v$', '.*v$': '.*/w', '.*/w': '.*v$',
+                  '/r1': '/x|/u', '/x|/u': '/u/', '(?i)/A': '/a'},
+}
+
+
+def _near_twin(rng, o, tag, third):
+    """copy of view o (same slot) in which exactly one predicate value is replaced by a NEAR value of the same predicate
+    (else by another value from the pool); either may be registered first"""
+    cand = sorted(n for n in o['preds'] if n not in ('zthird', 'ythird'))
+    if not cand:
+        return None
+    preds = {k: (list(map(list, v)) if k == 'custom' else v) for k, v in o['preds'].items()}
+    near = [n for n in cand if n in NEAR and isinstance(preds[n], str) and preds[n] in NEAR[n]]
+    n = rng.choice(near) if near and rng.random() < 0.8 else rng.choice(cand)
+    if n in near and rng.random() < 0.9:
+        preds[n] = NEAR[n][preds[n]]
+    elif n in ('xhr', 'is_authenticated'):
+        preds[n] = not preds[n]
+    else:
+        preds[n] = gen_pred(rng, n)
+    return dict(o, preds=preds, tag=tag, perm=False)
+
+
 def gen_case(rng):
     nroutes = rng.choice([0, 1, 1, 2, 2])
     routes = [{'name': ROUTES[i], 'ugv': rng.random() < 0.55} for i in range(nroutes)]
@@ -226,6 +284,10 @@ def gen_case(rng):
             need.add(t - 1)
         elif views and rng.random() < 0.14:       # a sibling differing only by not_() around one predicate value
             sib = _not_sibling(rng, rng.choice(views), t, third)
+            if sib is not None:
+                v = sib
+        elif views and rng.random() < 0.12:       # a twin differing in one predicate VALUE (same names, near values)
+            sib = _near_twin(rng, rng.choice(views), t, third)
             if sib is not None:
                 v = sib
         views.append(v)
@@ -437,6 +499,11 @@ def setup(tier):
 
     for cls in (Root, A, B, C, U, X):
         cls.__module__ = 'c03'
+    # the models of another package: a class and an interface with the SAME short names as A and I (their str()
+    # differs by the module only); two predicates values that print alike must still be two values
+    A2 = type('A', (Node,), {'__module__': 'c03b'})
+    from zope.interface.interface import InterfaceClass
+    I2 = InterfaceClass('I', (Interface,), {}, __module__='c03b')
     def build_tree(rootname):
         root = Root(rootname, None)
         a = A('a', root)
@@ -445,11 +512,12 @@ def setup(tier):
         u = U('u', root)
         C('c', u)
         alsoProvides(A('i', u), I)
+        alsoProvides(A2('d', u), I2)
         root.kids['x'] = X(root)
         return root
     root = build_tree('')
     root_none = build_tree(None)             # a root whose __name__ is None (pyramid's DefaultRootFactory spelling)
-    classes = {'A': A, 'B': B, 'C': C, 'U': U, 'Root': Root, 'I': I}
+    classes = {'A': A, 'B': B, 'C': C, 'U': U, 'Root': Root, 'I': I, 'A2': A2, 'I2': I2}
 
     class Custom:
         def __init__(self, i):
@@ -737,7 +805,7 @@ class World:
         loc = ctx
         while loc is not None:
             ids = [i for i, c in enumerate(CONT)
-                   if (P['I'].providedBy(loc) if c == 'I' else isinstance(loc, P['classes'][c]))]
+                   if (P['classes'][c].providedBy(loc) if c in ('I', 'I2') else isinstance(loc, P['classes'][c]))]
             lin.append([getattr(loc, '__name__', '') or '', ids])
             loc = getattr(loc, '__parent__', None)
         accq = []
@@ -979,6 +1047,13 @@ def kinds(case, obs):
             if all(vs[i][f] == vs[j][f] for f in ('ctx', 'name', 'route', 'accept')) and _differs_by_one_not(vs[i], vs[j]):
                 k.append('cfg:not_-sibling-' + ('autocommit' if case['commits'] is None else
                                                'same-commit' if not any(i <= c < j for c in case['commits']) else 'later-commit'))
+            if all(vs[i][f] == vs[j][f] for f in ('ctx', 'name', 'route', 'nots', 'accept')) \
+                    and set(vs[i]['preds']) == set(vs[j]['preds']) \
+                    and sum(1 for n in vs[i]['preds'] if vs[i]['preds'][n] != vs[j]['preds'][n]) == 1:
+                k.append('cfg:value-twin')
+                ca, cb = vs[i]['preds'].get('containment'), vs[j]['preds'].get('containment')
+                if ca != cb and {ca, cb} in ({'A', 'A2'}, {'I', 'I2'}):
+                    k.append('cfg:containment-twin-same-short-name')
             if all(vs[i][f] == vs[j][f] for f in ('ctx', 'name', 'route', 'preds', 'nots', 'accept')):
                 k.append('cfg:override-%s-to-%s' % ('secured' if vs[i]['perm'] else 'plain', 'secured' if vs[j]['perm'] else 'plain'))
     return k
@@ -997,6 +1072,25 @@ def targeted(broken, disagreements, rng):
         c = gen_case(rng)
         o = c['views'][0]
         sib = _not_sibling(rng, o, max(v['tag'] for v in c['views']) + 1, c['third'])
+        if sib is None:
+            continue
+        c['views'] = ([o, sib] if rng.random() < 0.5 else [sib, o]) + c['views'][1:3]
+        c['commits'] = rng.choice([None, [], [0], [0, 1]])
+        n = len(c['views'])
+        for r in c['requests']:
+            r['after'] = n
+            r['vname'], r['route'] = o['name'], o['route']
+            r['path'] = rng.choice(CTX_PATHS[o['ctx']])
+        if valid(c):
+            out.append(c)
+    for _ in range(150):                      # value twins (one predicate value replaced by a near value) in one slot
+        c = gen_case(rng)
+        o = c['views'][0]
+        if not o['preds']:
+            n = rng.choice(sorted(NEAR))
+            o['preds'] = {n: rng.choice(sorted(NEAR[n]))}
+            o['nots'] = []
+        sib = _near_twin(rng, o, max(v['tag'] for v in c['views']) + 1, c['third'])
         if sib is None:
             continue
         c['views'] = ([o, sib] if rng.random() < 0.5 else [sib, o]) + c['views'][1:3]
